@@ -9,14 +9,7 @@
 #define VF_MOD_H
 #include "common.h"
 
-static int vf_cpu_avx;
-static int vf_cpu_supports(const char* feature) {
-  (void)feature;
-  return vf_cpu_avx;
-}
-#define __builtin_cpu_supports(x) vf_cpu_supports(x)
-#include "arithmetic/module_api.c"
-#undef __builtin_cpu_supports
+#include "arithmetic/module_api.c" /* CPU_SUPPORTS() resolves to the harness flag, see cpu_hook.h */
 
 /* no precomputed tables: enough for every coefficient-space / big-coefficient function */
 static void vf_module_init_notables(MODULE* m, uint64_t nn, MODULE_TYPE t, int avx) {
